@@ -99,6 +99,16 @@ theorem clean_drift_witness :
       rabs (330 - (390 + (270 - 390) * ((1100 + 81 / 1000000) - 500) / ((1700 + 324 / 1000000) - 500))) := by
   decide +kernel
 
+/-- **Knees and turning points survive the middle loop.**  Whatever the curve, an interior point that is a
+    turning point of a vertical run (its neighbours share an abscissa it does not have) or that lies more
+    than `tol` — measured in `y`, i.e. in kelvin — off the chord through its two neighbours is among the
+    points `clean_composite_curve`'s middle loop keeps.  (Seeded changes C13-vertical-run-drops-turning-point
+    and C17-cross-multiplied-collinearity — the latter measures deviation × chord width instead — make this
+    statement false of the code.) -/
+theorem knees_and_turning_points_kept (tol : Rat) (l : List (Rat × Rat)) (i : Nat) (h : i + 2 < l.length)
+    (hoff : OffChord tol l[i] l[i + 1] l[i + 2]) : l[i + 1] ∈ keepInterior tol l :=
+  keepInterior_keeps tol l i h hoff
+
 /-- **A repeated point no longer hides the corner it sits on** (fix bdc25b9; kernel-decided): the
     utility grand composite curve of a site whose table, rounded for output, lists 47.0 and 46.99
     twice — the corner `(0, 46.99)` between the zero run and the cold utility is kept. -/
